@@ -68,6 +68,23 @@ func (ex *Exec) frameEnv(f *frame, st, old *State) *Env {
 	for _, fv := range fn.FreeVars {
 		if t, ok := f.vals[fv]; ok {
 			env.vars[fv.Name()] = tv{t: t, typ: fv.Type()}
+			// a variable captured by reference: the name denotes the variable's current value
+			if pt, ok := fv.Type().Underlying().(*types.Pointer); ok {
+				deref := false
+				switch pt.Elem().Underlying().(type) {
+				case *types.Struct:
+				default:
+					deref = true
+				}
+				if deref {
+					l := &Loc{kind: "obj", typ: pt.Elem(), ref: t}
+					if lv, ok := f.locs[fv]; ok {
+						l = lv
+					}
+					env.vars[fv.Name()] = tv{t: ex.load(st, l), typ: pt.Elem()}
+					env.vars["&"+fv.Name()] = tv{t: t, typ: fv.Type()}
+				}
+			}
 		}
 	}
 	if f.results != nil {
